@@ -872,7 +872,7 @@ func genC01(g *Gen) {
 		a, root := randTree(2)
 		g.Run("deep nesting", []Ev{{"op": "eval", "nodes": nodesAny(a), "root": root, "mode": 0, "pseed": int(r.Int31()), "decorate": false, "wrap": d}})
 	}
-	noise := []string{"2 * (3 + ", "(((1 +", "f(1, (2", "a[", "1 1", ")", "((((((((", "x = 'abc", "NOT", "1 +* 2", "f(((a)"}
+	noise := []string{strings.Repeat("(", 45) + "1 +", strings.Repeat("f(", 30) + "1, ", "2 * (3 + ", "(((1 +", "f(1, (2", "a[", "1 1", ")", "((((((((", "x = 'abc", "NOT", "1 +* 2", "f(((a)"}
 	for rep := 0; rep < g.Pick(2, 8); rep++ {
 		var seg []Ev
 		n := g.Pick(260, 1400)
